@@ -20,9 +20,9 @@ ASSUMPTIONS = [
     "weighted-mean / monotone / scale clauses only where total usable capacity x100 >= 1 in every run compared (away from the is_close_to_zero cut-off at 1e-9)",
     "a missing or NaN metric is modelled as an absent key (LatestMetricsFetcher drops NaN metrics before they reach the calculator; that filter is a concrete replay only)",
 ]
-BOUNDS = {"quick": "<=2 batteries: every missing-metric pattern and working subset, all values symbolic; range, monotone and scale invariance with complete data for 2 and 3 batteries",
-          "thorough": "3 batteries for every clause incl. all missing patterns (budgeted)"}
-OUTSIDE = "more than 3 batteries; IEEE rounding; the asyncio plumbing of SendOnUpdate (only its two pure steps are driven)"
+BOUNDS = {"quick": "<=3 batteries: every missing-metric pattern and working subset, all values symbolic; range, monotone and scale invariance with complete data for 2 and 3 batteries",
+          "thorough": "range and monotonicity with 4 batteries (monotone budgeted)"}
+OUTSIDE = "more than 3 batteries (4 for range/monotone in the thorough tier); IEEE rounding; the asyncio plumbing of SendOnUpdate (only its two pure steps are driven)"
 BUDGET = {"quick": 300, "thorough": 900}
 KEYS = [M.CAPACITY, M.SOC, M.SOC_LOWER_BOUND, M.SOC_UPPER_BOUND]
 SOC = SoCCalculator.__new__(SoCCalculator)
@@ -239,9 +239,10 @@ def instances(tier):
         I("mono-3", "make_mono", (3,), "3 batteries: monotone", budget_s=600, **kw),
         I("scale-3", "make_scale", (3,), "3 batteries: scale invariance", budget_s=600, **kw),
     ]
+    out.append(I("mean-3", "make_mean", (3,), "3 batteries, all missing patterns and working subsets", budget_s=600, **{**kw, "validate_every": 500}))
     if tier != "quick":
-        kw["dump_queries"] = 10
         out += [
-            I("mean-3", "make_mean", (3,), "3 batteries, all patterns (budgeted)", budget_s=900, exhaustive=False, **kw),
+            I("range-4", "make_range", (4,), "4 batteries complete data: range (budgeted)", exhaustive=False, budget_s=120, **kw),
+            I("mono-4", "make_mono", (4,), "4 batteries: monotone (budgeted)", budget_s=120, exhaustive=False, **kw),
         ]
     return out
